@@ -179,10 +179,45 @@ func checkC15(c *core.Ctx) error {
 		c.Unknown("C15.R3", "statistics/generic.(*Hmm).Posterior", "method found", token.NoPos, "method Posterior not found")
 	} else {
 		info := pkg.TypesInfo
-		_ = info
+		// roles, not names: the state-set sequence is the parameter of type [][]int, n the local bound to GetN(), k any
+		// induction variable of a for loop of the method
+		var statesObj, nObj types.Object
+		loopVars := map[types.Object]bool{}
+		for _, f := range fd.Type.Params.List {
+			for _, nm := range f.Names {
+				if o := info.Defs[nm]; o != nil && o.Type().String() == "[][]int" {
+					statesObj = o
+				}
+			}
+		}
+		ast.Inspect(fd.Body, func(x ast.Node) bool {
+			switch v := x.(type) {
+			case *ast.AssignStmt:
+				if len(v.Lhs) == 1 && len(v.Rhs) == 1 {
+					if ce, ok := ast.Unparen(v.Rhs[0]).(*ast.CallExpr); ok && calleeName(ce) == "GetN" {
+						if id, ok := v.Lhs[0].(*ast.Ident); ok && nObj == nil {
+							nObj = info.Defs[id]
+						}
+					}
+				}
+			case *ast.ForStmt:
+				if as, ok := v.Init.(*ast.AssignStmt); ok && len(as.Lhs) == 1 {
+					if id, ok := as.Lhs[0].(*ast.Ident); ok {
+						if o := info.Defs[id]; o != nil {
+							loopVars[o] = true
+						}
+					}
+				}
+			}
+			return true
+		})
 		statesIdx := func(e ast.Expr) ast.Expr {
 			ix, ok := ast.Unparen(e).(*ast.IndexExpr)
-			if !ok || exprStr(ix.X) != "states" {
+			if !ok {
+				return nil
+			}
+			id, ok := ast.Unparen(ix.X).(*ast.Ident)
+			if !ok || statesObj == nil || info.Uses[id] != statesObj {
 				return nil
 			}
 			return ix.Index
@@ -193,10 +228,11 @@ func checkC15(c *core.Ctx) error {
 		linOf = func(e ast.Expr) (lin, bool) {
 			switch v := ast.Unparen(e).(type) {
 			case *ast.Ident:
-				switch v.Name {
-				case "k":
+				o := info.Uses[v]
+				switch {
+				case o != nil && loopVars[o]:
 					return lin{1, 0, 0}, true
-				case "n":
+				case o != nil && o == nObj:
 					return lin{0, 1, 0}, true
 				}
 			case *ast.BasicLit:
